@@ -174,7 +174,7 @@ def built(v, sg):
     if c == "g":
         return {"k": "i64", "v": x}
     if c == "f":
-        return {"k": "f64", "v": repr(x)}
+        return {"k": "f64", "v": x}
     if c == "b":
         return {"k": "bool", "v": x}
     return {"k": "text", "v": x}
@@ -475,7 +475,7 @@ def make_rows(docs, schema, cases, results, tier):
                 exp = d["exp"]
                 if exp["ok"] != row["m"]:
                     drift.append({"what": "Read expects %s, both real paths %s" % ("accept" if exp["ok"] else "reject", "accept" if row["m"] else "reject"),
-                                  "ty": d["ty"], "text": c["text"], "ops": d["ops"], "obs": r.get("via")})
+                                  "ty": d["ty"], "text": c["text"], "ops": d["ops"], "obs": r.get("via"), "doc": d["doc"]})
                 elif exp["ok"]:
                     ex = schema.key(d["ty"], exp["x"], sg)
                     if ids.id(ex) != row["vm"]:
